@@ -152,6 +152,15 @@ func matchKnown(ks []Known, v harness.Verdict) *Known {
 	return nil
 }
 
+func installKnown(known []Known) {
+	harness.KnownMatcher = func(v harness.Verdict) string {
+		if k := matchKnown(known, v); k != nil {
+			return k.ID
+		}
+		return ""
+	}
+}
+
 func main() {
 	// a runaway recursion in the program under test is reported quickly
 	debug.SetMaxStack(128 << 20)
@@ -220,6 +229,7 @@ func run(args []string) {
 		os.Exit(2)
 	}
 	known := loadKnown(*knownPath)
+	installKnown(known)
 	start := time.Now()
 	var watchdog *time.Timer
 	hashes := map[uint64]bool{}
@@ -244,12 +254,6 @@ func run(args []string) {
 		cs := mix(*seed, idx)
 		t := simrt.NewTape(cs)
 		c := harness.NewCase(*prop, *tier, t)
-		c.KnownID = func(v harness.Verdict) string {
-			if k := matchKnown(known, v); k != nil {
-				return k.ID
-			}
-			return ""
-		}
 		v := ch.Run(c)
 		for k, x := range c.Masked {
 			res.Masked[k] += x
@@ -335,7 +339,9 @@ func replay(args []string) {
 	fs := flag.NewFlagSet("replay", flag.ExitOnError)
 	file := fs.String("file", "", "")
 	verbose := fs.Bool("v", false, "")
+	knownPath := fs.String("known", "known_findings.json", "")
 	fs.Parse(args)
+	installKnown(loadKnown(*knownPath))
 	b, err := os.ReadFile(*file)
 	if err != nil {
 		fmt.Fprintln(os.Stderr, err)
@@ -373,7 +379,9 @@ func one(args []string) {
 	seed := fs.Uint64("seed", 1, "")
 	idx := fs.Int("index", 0, "")
 	caseTimeout := fs.Float64("casetimeout", 60, "")
+	knownPath := fs.String("known", "known_findings.json", "")
 	fs.Parse(args)
+	installKnown(loadKnown(*knownPath))
 	ch := harness.Checks[*prop]
 	if ch == nil {
 		os.Exit(2)
